@@ -74,7 +74,7 @@ def run(ctx):
         total += dstat.get("dirty_created", 0)
         hist["objects-created-into-non-blank-free-slots"] = dstat.get("dirty_created", 0)
         for msg in orc[:2]:
-            C.add_violation(ctx, "dirty-free-slot:" + ("reopen" if "after reopening" in msg or "no longer open" in msg else "panic" if "panic" in msg else "live"), msg[:300],
+            C.add_violation(ctx, ("foreign-stream-metadata:" if msg.startswith("foreign-stream-metadata") else "dirty-free-slot:") + ("reopen" if "after reopening" in msg or "no longer open" in msg else "panic" if "panic" in msg else "live"), msg[:300],
                             "# C17: %s\n# replay: harness layout --seed %d --count %d --outdir <dir>; harness damage --dirty-slots --seed %d --bases <list of the L*.cfb> --count %d\n" % (msg[:1000], ctx.seed + 17, 60 if quick else 400, ctx.seed, 300 if quick else 4000))
     shutil.rmtree(ldir, ignore_errors=True)
     ctx.coverage.update({
